@@ -117,6 +117,7 @@ class Run:
         self.n_solver = 0
         self.t_solver = 0.0
         self.held_locks = []
+        self.members = {}      # oid of an object -> oids of counter-tracked symbolic lists it was appended to
         self.abstractions = []
         self.input_types = {}
         self.decided = {}
